@@ -243,7 +243,10 @@ class Cover(Device):
         elif position > current_position:
             self.updown.down()
         else:
-            return  # already in position
+            # already in position - but a traveling cover is just passing by
+            if self.is_traveling() and self.supports_stop:
+                await self.stop()
+            return
         self._start_position_update(target_position=position)
         if self.supports_stop:
             # If device does not support positioning, we stop the device when position is reached
